@@ -26,6 +26,9 @@
 (*   ClobbersCallerHook    shutdown called from another thread gives THAT   *)
 (*                         thread the hook the starting thread had before   *)
 (*                         start (pre-fix: sys.settrace is per thread)      *)
+(*   LeaksHooksOnFailedStart  start() fails after the hooks were installed   *)
+(*                         (e.g. an unusable poll interval): they stay      *)
+(*                         installed although the agent is not started      *)
 (*   SaveOnce              the hooks found before start are remembered at  *)
 (*                         the FIRST start only: a later start/shutdown    *)
 (*                         cycle puts back hooks the application has since *)
@@ -35,7 +38,7 @@ EXTENDS Naturals, Sequences, FiniteSets, TLC
 
 CONSTANTS NPlugins, MaxCalls,
           UnconditionalRestore, AbortOnFailure, KeepsActing, SaveOnce, AcceptsDuringDrain, RestoreNeedsOwnThread,
-          ClobbersCallerHook
+          ClobbersCallerHook, LeaksHooksOnFailedStart
 
 Hooks == {"None", "Other1", "Other2", "Agent"}
 
@@ -87,6 +90,16 @@ Start ==
                                       THEN UNCHANGED <<preSys, preThr>>
                                       ELSE preSys' = sysTrace /\ preThr' = thrTrace      \* what is there NOW
     /\ UNCHANGED <<noTrace, appSys, appThr, sdpc, failing, sdDone, drained, pluginDown, actedAfter, latePoll, otherThread, otherHook>>
+
+(* start() fails (a setting it needs last is unusable): the caller gets the error, the process is as it was before *)
+StartFails ==
+    /\ sdpc = 0 /\ ncalls < MaxCalls /\ ~otherThread /\ ~started
+    /\ ncalls' = ncalls + 1
+    /\ IF LeaksHooksOnFailedStart /\ ~noTrace
+         THEN sysTrace' = "Agent" /\ thrTrace' = "Agent"
+         ELSE UNCHANGED <<sysTrace, thrTrace>>
+    /\ UNCHANGED <<noTrace, preSys, preThr, appSys, appThr, started, pollAlive, sdpc, failing, sdDone, drained, pluginDown,
+                   actedAfter, everStarted, latePoll, otherThread, otherHook>>
 
 (* shutdown() is called; the environment decides which of its steps will fail *)
 ShutdownBegin(f, lp, ot) ==
@@ -153,7 +166,7 @@ AppChangesHooks(a, b) ==
                    actedAfter, everStarted, latePoll, otherThread, otherHook>>
 
 Next ==
-    \/ Start \/ AppSetsHooks
+    \/ Start \/ StartFails \/ AppSetsHooks
     \/ \E a, b \in {"None", "Other1", "Other2"} : AppChangesHooks(a, b)
     \/ \E f \in SUBSET (Steps \ {1}), lp, ot \in BOOLEAN : ShutdownBegin(f, lp, ot)     \* restoring the hooks itself cannot fail
     \/ ShutdownStep \/ ShutdownMark \/ HostEventAfter
